@@ -265,9 +265,11 @@ func exprtabMinify(sample func(total int) bool) []packCase {
 			for _, sh := range shapes {
 				for li, lp := range loops {
 					id++
-					st := strings.NewReplacer("%C", "n++ < 2", "%Y", fmt.Sprintf("$(%d, \"y\", n)", 910000+id), "%J", j).Replace(sh)
+					// every iteration evaluates the condition, and the condition throws after 12 evaluations: a combination
+					// that never leaves its loop (a plain continue in for(;;)) still terminates, with the same events on both sides
+					st := strings.NewReplacer("%C", "t() < 2", "%Y", fmt.Sprintf("$(%d, \"y\", n)", 910000+id), "%J", j).Replace(sh)
 					body := strings.ReplaceAll(lp, "%S", st)
-					g.add("loopjump:"+j+":"+sh+":"+fmt.Sprint(li), fmt.Sprintf("() => { var n = 0, rounds = 0; blk: { outer: for (var r = 0; r < 3; r++) { rounds++; if (n > 20) break; %s $(%d, \"after-inner\", n); } $(%d, \"after-outer\", rounds); } return [n, rounds]; }", body, 920000+id, 930000+id))
+					g.add("loopjump:"+j+":"+sh+":"+fmt.Sprint(li), fmt.Sprintf("() => { var n = 0, rounds = 0, t = () => { if (n > 12) throw new Error(\"@lim\"); return n++; }; try { blk: { outer: for (var r = 0; r < 3; r++) { rounds++; if (n > 20) break; %s $(%d, \"after-inner\", n); } $(%d, \"after-outer\", rounds); } } catch (e) { $(%d, \"lim\", n); } return [n, rounds]; }", body, 920000+id, 930000+id, 940000+id))
 				}
 			}
 		}
